@@ -21,6 +21,7 @@ func main() {
 	out := flag.String("out", "", "output file (trace mode)")
 	tier := flag.String("tier", "quick", "quick | thorough")
 	flag.Bool("replaying", false, "a single recorded case is being replayed")
+	genName := flag.String("gen", "", "trace mode: generator to use instead of the property's own")
 	scen := flag.String("scenario", "", "C13: scenario class (child process)")
 	iters := flag.Int("iters", 50, "C13: iterations per goroutine")
 	flag.Parse()
@@ -56,7 +57,11 @@ func main() {
 			}
 		}
 	case "trace":
-		gen, ok := h.TraceGen[*prop]
+		key := *prop
+		if *genName != "" {
+			key = *genName
+		}
+		gen, ok := h.TraceGen[key]
 		if !ok {
 			fmt.Fprintln(os.Stderr, "no trace generator for", *prop)
 			os.Exit(2)
@@ -88,6 +93,9 @@ func main() {
 			os.Exit(2)
 		}
 		re, ok := h.Retrace[*prop]
+		if !ok {
+			re, ok = h.Retrace["MIX"]
+		}
 		if !ok {
 			os.Exit(2)
 		}
